@@ -136,3 +136,15 @@ def validate_unique_output_names(
             if name in at_least_tuple(other):
                 msg = f"The function with output name `{name!r}` already exists in the pipeline (`{func}`)."
                 raise ValueError(msg)
+
+
+def validate_unique_output_names_of(functions: list[PipeFunc]) -> None:
+    """Check that no two functions produce the same output name.
+
+    `Pipeline.add` checks this for the function it adds, but renaming an output in place
+    (`PipeFunc.update_renames`, `Pipeline.update_renames`) can create the clash afterwards.
+    """
+    seen: dict[OUTPUT_TYPE, PipeFunc] = {}
+    for f in functions:
+        validate_unique_output_names(f.output_name, seen)
+        seen[f.output_name] = f
